@@ -8,10 +8,11 @@ import (
 	"testing"
 
 	"github.com/gotid/god/internal/verifdrv"
+	"github.com/gotid/god/internal/verifdrv/c05shape"
 )
 
 type verifCase struct {
-	Shape verifdrv.Shape `json:"shape"`
+	Shape c05shape.Shape `json:"shape"`
 	Conf  string         `json:"conf"` // JSON text whose field keys are re-spelled (snake_case, other initial case)
 	Keys  []string       `json:"keys"`
 }
@@ -34,7 +35,7 @@ func TestVerifDriver(t *testing.T) {
 			if panicked, pv := verifdrv.Catch(func() { typ = c.Shape.Build() }); panicked {
 				return map[string]any{"error": "shape: " + pv}
 			}
-			out["c"] = verifdrv.RunInto(typ, func(v any) error { return LoadFromJsonBytes([]byte(c.Conf), v) })
+			out["c"] = c05shape.RunInto(typ, func(v any) error { return LoadFromJsonBytes([]byte(c.Conf), v) })
 		}
 		return out
 	})
